@@ -109,19 +109,26 @@ func (p *Parser) AppendLastReturnT() {
 		return
 	}
 
-	for _, candidateT := range p.lastReturnT {
-		if candidateT.IsMatchType(p.lastEvaluatedT.(*base.T)) {
-			return
-		}
-	}
-
-	if p.lastEvaluatedT.(*base.T) == nil {
-		p.lastReturnT = append(p.lastReturnT, *base.MakeNil())
+	// the target list of a multiple assignment that never got its right hand
+	// side (`a, b =` at the end of the input) is not a value
+	lastEvaluatedT, ok := p.lastEvaluatedT.(*base.T)
+	if !ok {
+		p.lastReturnT = append(p.lastReturnT, *base.MakeUnknown())
 
 		return
 	}
 
-	lastEvaluatedT := p.lastEvaluatedT.(*base.T)
+	for _, candidateT := range p.lastReturnT {
+		if candidateT.IsMatchType(lastEvaluatedT) {
+			return
+		}
+	}
+
+	if lastEvaluatedT == nil {
+		p.lastReturnT = append(p.lastReturnT, *base.MakeNil())
+
+		return
+	}
 
 	if lastEvaluatedT.IsUnionType() {
 		p.lastReturnT = append(p.lastReturnT, lastEvaluatedT.GetVariants()...)
